@@ -36,7 +36,7 @@ var c04Catalogue = []string{
 	"pad-wrong-value", "pad-wrong-count", "pad-count-over-15", "pad-count-16", "integrity-pad-not-ff", "different-body-unsigned-same-seq",
 	"pad-sequential-17", "pad-sequential-24", "pad-sequential-40", "pad-sequential-200", "pad-sequential-255", "pad-last-byte-wrong", "pad-one-byte-wrong",
 	"pad-two-bytes-same-flip", "pad-two-bytes-swapped", "pad-all-zero-3", "pad-all-zero-7", "pad-all-zero-11", "pad-all-zero-15", "pad-all-ff-4", "pad-shifted-by-one", "pad-multi-a", "pad-multi-b", "pad-multi-c",
-	"pad-16-garbage", "pad-16-zero", "pad-16-garbage-long",
+	"pad-16-garbage", "pad-16-zero", "pad-16-garbage-long", "baseline-authentic-only", "signed-k1-first-16", "signed-k1-first-12", "signed-k2", "signed-sik",
 	"sid-bmc-signed", "sid-bmc-unsigned", "sid-zero-signed", "sid-plus1-signed", "sid-minus1-signed", "sid-swapped-signed", "sid-highbit-signed", "sid-inverted-signed", "sid-bmc-plus1-signed",
 }
 
@@ -139,6 +139,23 @@ func c04Run(run *ev.Run, o c04One) {
 		run.Violation("C04:handshake-failed", err.Error(), cs, nil)
 		return
 	}
+	// half of the cases first run an in-session Get Channel Authentication Capabilities whose
+	// (authentic) answer has every capability and "disabled" bit set: nothing in it may relax
+	// what the session accepts afterwards
+	capsFirst := (o.Arg+o.Code+len(o.Kind)+o.Suite)%2 == 1
+	if capsFirst {
+		e.BMC.Handler = func(ev *refbmc.Event) (byte, []byte, bool) {
+			if ev.NetFn == 6 && ev.Cmd == 0x38 {
+				return 0, []byte{0x01, 0xb7, 0x1f, 0x03, 0xaa, 0xbb, 0xcc, 0xdd}, true
+			}
+			return 0, authBody, true
+		}
+		pc, pcancel := e.LimitCtx(4)
+		if _, cerr := sess.GetChannelAuthenticationCapabilities(pc, &ipmi.GetChannelAuthenticationCapabilitiesReq{ExtendedData: true, Channel: ipmi.ChannelPresentInterface, MaxPrivilegeLevel: ipmi.PrivilegeLevelAdministrator}); cerr != nil {
+			run.Violation("C04:harness-caps", "in-session capabilities command failed: "+cerr.Error(), cs, nil)
+		}
+		pcancel()
+	}
 	attempt, authenticDelivered, forgedDelivered := 0, 0, 0
 	skip := false
 	var forgedBytes []byte
@@ -180,11 +197,19 @@ func c04Run(run *ev.Run, o c04One) {
 			code, err = sess.SendCommand(cctx, cmd)
 		}
 	})
+	if skip && o.Kind == "baseline-authentic-only" {
+		run.Eval(1)
+		run.Nontrivial(fmt.Sprintf("suite %v cmd %s baseline caps-first %v", su, o.Cmd, capsFirst))
+		if pv != nil || err != nil || code != 0 || (o.Cmd != "chassis" && !bytes.Equal(value, authBody)) {
+			run.Violation("C04:authentic-reply-not-accepted:"+su.String(), fmt.Sprintf("suite %v cmd %s: the authentic reply (signed under K1, encrypted under K2) was the only thing delivered: code=%v err=%v panic=%v value %x want %x", su, o.Cmd, code, err, pv, value, authBody), cs, nil)
+		}
+		return
+	}
 	if skip {
 		return // the item does not apply to this reply (e.g. bit index beyond the datagram)
 	}
 	run.Eval(1)
-	desc := fmt.Sprintf("suite %v cmd %s forgery %s/%d code %#x forever=%v", su, o.Cmd, o.Kind, o.Arg, o.Code, o.Forever)
+	desc := fmt.Sprintf("suite %v cmd %s forgery %s/%d code %#x forever=%v caps-first=%v", su, o.Cmd, o.Kind, o.Arg, o.Code, o.Forever, capsFirst)
 	if pv != nil {
 		run.Violation("C04:panic:"+panicSite(stk), fmt.Sprintf("%s: panic %v\n%s", desc, pv, trimStack(stk)), cs, nil)
 		return
@@ -280,6 +305,22 @@ func c04Forge(o c04One, b *refbmc.BMC, auth []byte, forgedBody []byte, r interfa
 		return se.Wrap(msg, refbmc.WrapOpts{AuthCodeSet: true, AuthCode: randBytes(il)}), true
 	case "wrong-k1":
 		return se.Wrap(msg, refbmc.WrapOpts{Key1: randBytes(len(se.K1))}), true
+	case "baseline-authentic-only":
+		return nil, false // nothing is forged: the authentic reply alone must complete the command
+	case "signed-k1-first-16", "signed-k1-first-12":
+		// signed under a prefix of K1 (what a key copied into a too-short array gives)
+		n := 16
+		if o.Kind == "signed-k1-first-12" {
+			n = 12
+		}
+		if len(se.K1) <= n {
+			return nil, false
+		}
+		return se.Wrap(msg, refbmc.WrapOpts{Key1: append([]byte(nil), se.K1[:n]...)}), true
+	case "signed-k2":
+		return se.Wrap(msg, refbmc.WrapOpts{Key1: se.K2}), true
+	case "signed-sik":
+		return se.Wrap(msg, refbmc.WrapOpts{Key1: se.SIK}), true
 	case "wrong-sid-signed":
 		return se.Wrap(msg, refbmc.WrapOpts{SID: &other}), true
 	case "sid-bmc-signed", "sid-bmc-unsigned", "sid-zero-signed", "sid-plus1-signed", "sid-minus1-signed", "sid-swapped-signed", "sid-highbit-signed", "sid-inverted-signed", "sid-bmc-plus1-signed":
